@@ -9,7 +9,8 @@
    (Prop_C01).  For every environment, query of any depth, measurement filter, state. *)
 From Coq Require Import List ZArith NArith Bool.
 From TF Require Import Base Query Index DB Spec proofs.LawsP proofs.IndexDefs proofs.RepP proofs.DBReadP proofs.DBRemoveP
-     proofs.DBStepP proofs.DBRunP proofs.DBSpecP.
+     proofs.DBStepP proofs.DBRunP proofs.DBSpecP ReadSem RemoveSem proofs.RemoveGenP.
+From TF Require gen.RemoveGen.
 Import ListNotations.
 
 Theorem C02_remove_exact : forall E s q m, Inv s -> wf_query E q -> index_safe q ->
@@ -47,6 +48,31 @@ Theorem C02_drop_is_removal_by_name : forall E s name, Inv s -> name <> [] ->
   snd (db_drop E s name) = snd (db_remove E s (QS AMeas [] (TCmp Ceq (VStr name))) None).
 Proof. exact drop_is_removal_by_name. Qed.
 
+(* what a removal decides, REGENERATED from tinyflux/database.py on every run (gen/RemoveGen.v: _remove_helper executed symbolically - is the index
+   asked and with which query; nothing named: 0; everything named: reset; after the loop nothing removed: 0 and nothing swapped in; nothing kept:
+   reset; else the staged rows are swapped in and the index is maintained or dropped - with _reset_database, remove and drop_measurement), is the
+   model's removal for every state, query and measurement argument; hence the functions as the source defines them, decorators included, remove
+   exactly the selected points *)
+Theorem C02_source_remove_helper_is_the_model : forall E s q m, RemoveGen.gen_remove_helper E s q m = remove_helper E s q m.
+Proof. exact gen_remove_helper_eq. Qed.
+Theorem C02_source_reset_is_the_model : forall s, RemoveGen.gen_reset s = reset_database s.
+Proof. exact gen_reset_eq. Qed.
+Theorem C02_source_remove_is_the_model : forall E s q m, RemoveGen.gen_remove E s q m = db_remove E s q m.
+Proof. exact gen_remove_eq. Qed.
+Theorem C02_source_drop_is_the_model : forall E s name, RemoveGen.gen_drop E s name = db_drop E s name.
+Proof. exact gen_drop_eq. Qed.
+Theorem C02_source_remove_exact : forall E s q m, Inv s -> wf_query E q -> index_safe q ->
+  let r := RemoveGen.gen_remove E s q m in
+  snd r = ONat (length (filter (hit E q m) (st_rows s))) /\
+  st_rows (fst r) = filter (fun p => negb (hit E q m p)) (st_rows s) /\
+  st_auto (fst r) = st_auto s /\ Inv (fst r).
+Proof. exact gen_remove_spec. Qed.
+Theorem C02_source_drop_exact : forall E s name, Inv s -> name <> [] ->
+  let r := RemoveGen.gen_drop E s name in
+  snd r = ONat (length (filter (fun p => str_eqb (p_meas p) name) (st_rows s))) /\
+  st_rows (fst r) = filter (fun p => negb (str_eqb (p_meas p) name)) (st_rows s) /\ Inv (fst r).
+Proof. exact gen_drop_spec. Qed.
+
 Print Assumptions C02_remove_exact.
 Print Assumptions C02_removed_is_gone.
 Print Assumptions C02_drop_is_removal_by_name.
@@ -54,3 +80,9 @@ Print Assumptions C02_drop_measurement_exact.
 Print Assumptions C02_remove_all.
 Print Assumptions C02_others_untouched.
 Print Assumptions C02_index_after_removal.
+Print Assumptions C02_source_remove_helper_is_the_model.
+Print Assumptions C02_source_reset_is_the_model.
+Print Assumptions C02_source_remove_is_the_model.
+Print Assumptions C02_source_drop_is_the_model.
+Print Assumptions C02_source_remove_exact.
+Print Assumptions C02_source_drop_exact.
